@@ -226,7 +226,7 @@ def gen_sweep_layout(seed, spb, lbits, maxpoints=140):
             scripts.append('\n'.join(hdr + body + ['sched ' + ' '.join(map(str, sched))]) + '\n')
     return scripts
 
-def gen_sweep_section(seed, spb, lbits, sin_only=False, maxpoints=45):
+def gen_sweep_section(seed, spb, lbits, sin_only=False, maxpoints=45, pending=None):
     """single-preemption sweeps around a locked section that replaces / resizes the table: thread 0 runs
     `lock ; <section operations> ; unlock`, thread 1 one ordinary operation on a key the section touches.
     (a) thread 1 runs i scheduling points (it has its snapshot, or is about to lock), then the whole section runs,
@@ -246,9 +246,27 @@ def gen_sweep_section(seed, spb, lbits, sin_only=False, maxpoints=45):
                                             'l.rehash %d ; %s' % (r.choice([2, 3]), sin), 'l.insert 3 30 ; l.insert 4 40 ; l.insert 5 50'])]
     t0 = 'lock ; ' + ' ; '.join(sec) + ' ; unlock'
     t1 = r.choice(['find 1', 'insert 1 7', 'insert 3 7', 'update 1 8', 'erase 1', 'upsert 1 add:1 1 5', 'find 3', 'updatefn 1 add:1'])
+    npre = maxpoints // 2
+    if not sin_only and (pending if pending is not None else r.random() < 0.35):
+        # the waiting operation is an insertion that has already decided to expand (both candidate buckets full, no
+        # displacement path: all keys share one hash) and is about to take all locks when the section starts; the
+        # section SHRINKS the table below the size that decision was taken for
+        keys = {k: h for k in range(1, 2 * spb + 2)}
+        for k in (90, 91, 92):
+            keys[k] = r.getrandbits(64)
+        hdr = ['# conc section sweep (pending expansion, shrinking section)', 'cfg %d %d 1 1 0' % (spb, lbits)] + ['key %d %d' % kv for kv in keys.items()]
+        hdr.append('init 16'); hdr.append('pre mhp 7')
+        for k in range(1, 2 * spb + 1):
+            hdr.append('pre insert %d %d' % (k, 10 * k))
+        # the section replaces the contents by three unrelated keys and shrinks the table
+        t0 = 'lock ; l.clear ; l.insert 90 1 ; l.insert 91 2 ; l.insert 92 3 ; ' + r.choice(['l.rehash 1', 'l.rehash 0', 'l.rehash 2', 'l.reserve 3']) + ' ; unlock'
+        t1 = r.choice(['insert %d 7', 'upsert %d add:1 1 7', 'ioa %d 7']) % (2 * spb + 1) + ' ; find 90 ; find 91 ; find 92'
+        body = ['thread 0 ' + t0, 'thread 1 ' + t1]
+        # thread 1 runs up to the point where it starts taking all locks for its expansion, then j further points
+        return ['\n'.join(hdr + body + ['sched ' + ' '.join(map(str, [-101] + [1] * j + [-1, -2]))]) + '\n' for j in range(0, 24)]
     body = ['thread 0 ' + t0, 'thread 1 ' + t1]
     out = []
-    for i in range(1, maxpoints // 2):
+    for i in range(1, npre):
         out.append('\n'.join(hdr + body + ['sched ' + ' '.join(map(str, [1] * i + [-1, -2]))]) + '\n')
     for j in range(1, maxpoints):
         out.append('\n'.join(hdr + body + ['sched ' + ' '.join(map(str, [0] * j + [-2, -1, -2]))]) + '\n')
